@@ -7,7 +7,7 @@
 (* runs:                                                                   *)
 (*   full      what the output stream receives in the fault-free run       *)
 (*   g0        digest of all module/class-level state before the call      *)
-(*   runs      << [injected, reached, written, next, nextfresh, g] >>      *)
+(*   runs      << [injected, reached, written, gfail, next, nextfresh, g] >>*)
 (*     injected  name of the exception object the environment raised at    *)
 (*               this run's invocation index                               *)
 (*     reached   name of the object that reached the caller: the same name *)
@@ -17,6 +17,7 @@
 (*               (strings: TLC evaluates Len and SubSeq on strings)        *)
 (*     next, nextfresh   result of the follow-up call / of the same call   *)
 (*               in a fresh interpreter                                    *)
+(*     gfail     digest of the global state right after the failed call    *)
 (*     g         digest of the global state after the follow-up call       *)
 (***************************************************************************)
 EXTENDS Naturals, Sequences, TLC, Json, IOUtils
@@ -28,6 +29,7 @@ VARIABLE tid
 JudgeRun(t, r, i) ==
   IF ~H!PassedThrough(r.reached, r.injected) THEN [ok |-> FALSE, why |-> "exception did not pass through", at |-> i]
   ELSE IF ~H!IsPrefix(r.written, t.full) THEN [ok |-> FALSE, why |-> "written is not a prefix", at |-> i]
+  ELSE IF ~H!StateRestored(r.gfail, t.g0) THEN [ok |-> FALSE, why |-> "globals changed by the failed call", at |-> i]
   ELSE IF ~H!LeftUsable(r.next, r.nextfresh, r.g, t.g0) THEN
          [ok |-> FALSE, why |-> IF r.g # t.g0 THEN "globals changed" ELSE "follow-up differs from fresh", at |-> i]
   ELSE [ok |-> TRUE, why |-> "-", at |-> 0]
